@@ -71,6 +71,17 @@ def cases(draw, max_depth):
 def prepare(spec, k, seed, sub_types):
     spec = S.fill_ids(copy.deepcopy(spec), seed * 7 + k)
     spec["repository"] = None
+    if (seed + k) % 3 == 0:
+        # a Property with more than nine values: rdf:_10 sorts before rdf:_2 as text
+        many = {"k": "prop", "name": "many-values", "id": None, "dtype": "int",
+                "values": [(i * 7) % 13 for i in range(12)], "unit": None, "uncertainty": None,
+                "definition": None, "reference": None, "dependency": None, "dependency_value": None,
+                "value_origin": None, "val_card": None}
+        spec["sections"] = list(spec["sections"]) + [
+            {"k": "sec", "name": "many-holder", "type": "t", "id": None, "definition": None, "reference": None,
+             "repository": None, "link": None, "include": None, "sec_card": None, "prop_card": None,
+             "props": [many], "sections": []}]
+        spec = S.fill_ids(spec, seed * 7 + k + 500009)
     secs = list(S.iter_secs(spec))
     for i, s in enumerate(secs):
         s["repository"] = None
